@@ -8,8 +8,7 @@ EXTENDS Shell, IOUtils
 VARIABLE l
 Trace == ndJsonDeserialize(IOEnv.TRACE_FILE)
 ev == Trace[l]
-TStreams   == {Trace[i].t : i \in {j \in 1..Len(Trace) : "t" \in DOMAIN Trace[j]}}
-TObservers == {Trace[i].w : i \in {j \in 1..Len(Trace) : "w" \in DOMAIN Trace[j]}}
+\* Streams / Observers = the names occurring in the trace (written into the cfg by checks/_shell.py)
 
 TraceInit == SInit /\ l = 1 /\ TLCSet(1, 1)
 Consume(name) == l <= Len(Trace) /\ ev.ev = name /\ l' = l + 1
@@ -29,7 +28,11 @@ TObsRet     == Consume("ObsRet") /\ ObsRet(ev.w) /\ last'.n = ev.n
 TReset      == Consume("Reset") /\ sessions = ev.n
                /\ sessions' = 0 /\ pc' = [t \in Streams |-> "idle"] /\ obs' = [w \in Observers |-> [st |-> "idle", n |-> 0]]
                /\ opens' = 0 /\ last' = [act |-> "Init"] /\ UNCHANGED c
-TInternal   == /\ \/ \E t \in Streams : Internal(t)
+\* A linearisation point lies between its call and its return, and the call events do not read the counter: it is
+\* enough to look for it immediately before some return event (this keeps the search small).
+RetEvents == {"OpenRetOk", "OpenRetMax", "OpenRetErr", "CloseRet", "StreamClosed", "ObsRet", "Reset"}
+TInternal   == /\ l <= Len(Trace) /\ ev.ev \in RetEvents
+               /\ \/ \E t \in Streams : Internal(t)
                   \/ \E w \in Observers : ObsLin(w)
                /\ UNCHANGED l
 
